@@ -58,8 +58,6 @@ def units(w):
                                                                                           "pattern", "operator", "interpunction"), detail=repr(ty))
                 if ty == "identifier":
                     it.check("post:an-identifier-token-is-never-a-keyword-or-TRUE/FALSE", z3.And(*[zs(va) != z3.StringVal(k) for k in WORDS_NOT_IDENTIFIERS]) if is_strlike(va) else False)
-                if ty == "keyword":
-                    it.check("post:a-keyword-token-is-one-of-the-keywords", z3.Or(*[zs(va) == z3.StringVal(k) for k in WORDS_NOT_IDENTIFIERS[:-2]]) if is_strlike(va) else False)
         return post
     for q in STATES:
         U.append(step_unit(w, f"state {q}: safety, invariant, progress", q, post_for(q), replay=replay_b))
